@@ -897,7 +897,40 @@ def rule_ply_counter(ctx):
               bad_what="info.depth is also written by %s" % extra)
 
 
-RULES = [("exits", rule_exits), ("ply-counter", rule_ply_counter), ("root-result", rule_root_result), ("permutation", rule_permutation), ("noninterference", rule_noninterference), ("windows", rule_windows), ("cut", rule_cut), ("terminal", rule_terminal)]
+
+def rule_legal_children(ctx):
+    """The look-ahead game is played with legal moves only: in the tree walk (root, interior, quiescence) every move that is
+    made was tested with is_legal_move on the same board and passed."""
+    ix = ctx.ix
+    n = 0
+    for key in (C.ALPHA_BETA_START, C.ALPHA_BETA, C.QUIESCENCE):
+        b = ctx.body(key)
+        sym = ctx.sym(b)
+        for bi, t in b.calls():
+            if not callee_is(t, "board::Board::make_move"):
+                continue
+            n += 1
+            mv = mir.strip_copies(sym.operand(t["args"][1]))
+            board = mir.strip_refs(sym.operand(t["args"][0]))
+            ok = False
+            for c in C.constraints_for(ix, b, sym, bi):
+                e = c[3]
+                inner = None
+                if e[0] == "call" and e[1] == "std::result::Result::is_err" and c[1] == frozenset([False]):
+                    inner = mir.strip_copies(mir.strip_refs(e[2][0]))
+                elif e[0] == "call" and e[1] == "std::result::Result::is_ok" and c[1] == frozenset([True]):
+                    inner = mir.strip_copies(mir.strip_refs(e[2][0]))
+                elif e[0] == "discr" and c[1] == frozenset(["Ok"]):
+                    inner = mir.strip_copies(mir.strip_refs(e[1]))
+                if inner is not None and inner[0] == "call" and inner[1] == "board::Board::is_legal_move" and len(inner[2]) == 2 \
+                        and mir.strip_copies(inner[2][1]) == mv and mir.strip_refs(inner[2][0]) == board:
+                    ok = True
+            ctx.check(ok, "%s:made-move-passed-is_legal_move" % key, "the move made in %s passed is_legal_move on the same board" % C.short(key), b.where(bi),
+                      bad_what="%s makes a move that was not tested with is_legal_move (pseudo-legal moves - a pinned piece capturing, a king stepping into check - enter the look-ahead game)" % C.short(key))
+    ctx.floor("moves made in the tree walk", n, 3)
+
+
+RULES = [("legal-children", rule_legal_children), ("exits", rule_exits), ("ply-counter", rule_ply_counter), ("root-result", rule_root_result), ("permutation", rule_permutation), ("noninterference", rule_noninterference), ("windows", rule_windows), ("cut", rule_cut), ("terminal", rule_terminal)]
 # the two immediate draws of the reference game read the half-move clock and the list of earlier positions: what they read is
 # what the rules of chess say (C03: clock table, accessors, the record of earlier positions)
 # keys stand for positions only as far as comparing two keys compares the whole word (C05.key-identity)
